@@ -31,6 +31,16 @@ def scatter_matrix(micros, nmd, n):
     return _dense(micros.higherOrderScatter.get(n))
 
 
+def set_scatter_matrix(micros, nmd, n, matrix):
+    """Store ``matrix`` as scattering block ``n`` (inverse of ``scatter_matrix``)."""
+    flags = [int(x) for x in nmd["scatFlag"]]
+    ident = flags[n]
+    if ident in _SCAT_ATTR and flags.index(ident) == n:
+        setattr(micros, _SCAT_ATTR[ident], matrix)
+    else:
+        micros.higherOrderScatter[n] = matrix
+
+
 def sub_block(m, ng, nsblok):
     x = (ng - 1) // nsblok + 1
     return (m - 1) * x + 1, min(ng, m * x)
